@@ -13,8 +13,10 @@
 (* validation there (=> mismatch => VIOLATION).  The C18 invariants are     *)
 (* evaluated in every state; a state that breaks one is printed by Flag     *)
 (* together with `stale` (the deviation branch taken) for classification.   *)
-(* The wall clock is not logged: a claim that succeeds although the model's *)
-(* lease flag is still set is explained by the lease having expired.        *)
+(* Time: the driver logs with every claim whether the oldest entry's        *)
+(* claim_until was certainly in the future / certainly in the past while    *)
+(* the claim ran; only when neither is certain may a claim that contradicts *)
+(* the model's lease flag be explained by a silent lease expiry.            *)
 (*                                                                          *)
 (* STRESS leg (SInit/SNext).  Real Start()ed workers, real heartbeats,      *)
 (* random stalls, concurrent clients and readers.  Logged: commit begin     *)
